@@ -147,6 +147,59 @@ def explicit(B, G, n, strings, custom=False, do_rho=True):
         G.twin("twin_offset", B.scalars(U_.rotate_psi(st, list(strings[-1]), space, psi=psi, **kw))[0, 0], pr[0] + 1)
 
 
+def two_dictionaries(B, G, n, strings):
+    """history: the same letters bound to two different user dictionaries (and to the default one) in one process"""
+    import qucumber.nn_states as nn
+    from qucumber.utils import unitaries as U_
+
+    O = B.O
+    D = 2 ** n
+    st = nn.ComplexWaveFunction(n, 1, gpu=False)
+    pr, pi_ = B.params("psi_re", (D,)), B.params("psi_im", (D,))
+    psi = B.tensor(np.stack([pr, pi_]))
+    rr, ri = hermitian(B, D)
+    rho = B.tensor(np.stack([rr, ri]))
+    rows, rows2 = batch_rows(n, 3)
+    states = C.rows_tensor(B, rows2)
+    space = C.space_tensor(B, n)
+    for rnd in range(3):
+        mats = {L: B.tensor(np.stack([B.params("U%s%d_re" % (L, rnd), (2, 2)), B.params("U%s%d_im" % (L, rnd), (2, 2))])) for L in "AX"}
+        ud = U_.create_dict(**mats) if rnd < 2 else U_.create_dict(A=mats["A"])
+        udict = {k: C.unitary_from_tensor(B, v) for k, v in ud.items()}
+        for bs in strings:
+            Ud = dense(O, udict, list(bs), D)
+            ip = B.scalars(U_.rotate_psi_inner_prod(st, list(bs), states, psi=psi, unitaries=ud))
+            pp = B.scalars(U_.rotate_rho_probs(st, list(bs), states, rho=rho, unitaries=ud))
+            full = B.scalars(U_.rotate_psi(st, list(bs), space, psi=psi, unitaries=ud))
+            for k, row in enumerate(rows2):
+                idx = int("".join(map(str, row)), 2)
+                acc = O.cplx(O.frac(0))
+                for c in range(D):
+                    acc = acc + Ud[idx][c] * O.cplx(pr[c], pi_[c])
+                G.eq("round%d.inner_prod[%s][%d].re" % (rnd, bs, k), ip[0, k], O.re(acc))
+                G.eq("round%d.inner_prod[%s][%d].im" % (rnd, bs, k), ip[1, k], O.im(acc))
+                G.eq("round%d.rotate_psi[%s][%d].re" % (rnd, bs, k), full[0, idx], O.re(acc))
+                dg = O.cplx(O.frac(0))
+                for i in range(D):
+                    for j in range(D):
+                        dg = dg + Ud[idx][i] * O.cplx(rr[i, j], ri[i, j]) * O.conj(Ud[idx][j])
+                G.eq("round%d.rho_probs[%s][%d]" % (rnd, bs, k), pp[k], O.re(dg))
+    # after user dictionaries overriding default letters were built, the default dictionary is still the default
+    fresh = U_.create_dict()
+    G.fact("defaults_survive_overrides.keys", sorted(fresh.keys()) == ["X", "Y", "Z"], sorted(fresh.keys()))
+    m = C.unitary_from_tensor(B, fresh["X"])
+    s2 = 1 / O.sqrt2()
+    for r in range(2):
+        for c in range(2):
+            G.eq("defaults_survive_overrides.X[%d,%d].re" % (r, c), O.re(m[r][c]), s2 * (-1 if (r == 1 and c == 1) else 1))
+            G.eq("defaults_survive_overrides.X[%d,%d].im" % (r, c), O.im(m[r][c]), O.frac(0))
+    st2 = nn.ComplexWaveFunction(n, 1, gpu=False)
+    G.fact("new_state_has_default_dictionary", sorted(st2.unitary_dict.keys()) == ["X", "Y", "Z"], sorted(st2.unitary_dict.keys()))
+    m2 = C.unitary_from_tensor(B, st2.unitary_dict["X"])
+    G.eq("new_state_X[1,1]", O.re(m2[1][1]), -s2)
+    G.twin("twin_rounds_differ", B.scalars(mats["A"])[0, 0, 0], pr[0])
+
+
 def dictionary(B, G):
     """default dictionary: Z = identity, rows of X / Y are the +1, -1 eigenvectors of the Pauli operators"""
     from qucumber.utils import unitaries as U_
@@ -288,6 +341,7 @@ def jobs(tier):
     add("explicit-n1", "explicit", n=1, strings=all_strings(1))
     add("explicit-n2", "explicit", n=2, strings=all_strings(2))
     add("custom-n2", "explicit", n=2, strings=["AB", "XA", "BY", "AA"], custom=True)
+    add("two-dictionaries-n2", "two_dictionaries", n=2, strings=["AX", "XA", "ZA"])
     if tier == "quick":
         add("explicit-n3", "explicit", n=3, strings=["XYZ", "ZYX", "YYX", "XZY", "ZZY", "YXX", "ZZZ", "YZY"])
         add("model-complex-2x2", "model", kind="complex", n=2, h=2, a=None, strings=all_strings(2))
